@@ -99,6 +99,30 @@ Definition stack_lonlats {A} (data_slice : option (pslice * oslice)) (ms : list 
   | None => stack_rows (mk_slice 0 (total_rows ms)) (mk_oslice (Some 0) (Some (first_width ms))) 0 ms
   end.
 
+(* the same on areas: AreaDefinition.get_lonlats slices the 1-D projection vectors (get_proj_coords),
+   meshgrids them and maps every (x, y) through the external inverse projection [inv];
+   StackedAreaDefinition.get_lonlats calls it per member with the local row slice and vstacks *)
+Section StackLonlats.
+  Context {T C : Type} (OP : ops T) (inv : T -> T -> C).
+  Definition area_lonlats (g : garea T) (data_slice : option (oslice * oslice)) : list (list C) :=
+    match data_slice with
+    | Some key => grid_of inv (np_slice (snd key) (gvec_x OP g)) (np_slice (fst key) (gvec_y OP g))
+    | None => grid_of inv (gvec_x OP g) (gvec_y OP g)
+    end.
+  Fixpoint stacked_rows (rs : pslice) (cs : oslice) (offset : Z) (defs : list (garea T)) : list (list C) :=
+    match defs with
+    | [] => []
+    | d :: r => area_lonlats d (Some (local_row_slice rs offset (gheight d), cs))
+                ++ stacked_rows rs cs (offset + gheight d) r
+    end.
+  Definition stacked_lonlats (data_slice : option (pslice * oslice)) (defs : list (garea T)) : list (list C) :=
+    match data_slice with
+    | Some (rs, cs) => stacked_rows rs cs 0 defs
+    | None => stacked_rows (mk_slice 0 (fold_right (fun d acc => gheight d + acc) 0 defs))
+                           (mk_oslice (Some 0) (Some (match defs with d :: _ => gwidth d | [] => 0 end))) 0 defs
+    end.
+End StackLonlats.
+
 (* the accumulation used before the fix (offset += number of rows returned so far); kept only to state
    that it violates the law (Proofs/C10_stack.v: stack_rows_prefix_refuted) *)
 Fixpoint stack_rows_prefix {A} (rs : pslice) (cs : oslice) (offset : Z) (ms : list (list (list A))) : list (list A) :=
